@@ -23,6 +23,7 @@ RULE = (
     "on-plane points (True) and points displaced along the normal by >= 1/64 (False); -P has the negated "
     "normal and the same points; the three Line forms and Line(*parametric()) are ==. non-trivial = normal or "
     "direction with a zero component or a negative leading component; distinct = distinct case descriptor."
+    ' The named constructors Plane.xy_plane / yz_plane / xz_plane and Line.x_axis / y_axis / z_axis are enumerated as further forms of the sets their docstrings name.'
 )
 ASSUMPTIONS = [
     "== is additionally cross-checked by exact membership so that hash defects (C08) are not inherited",
